@@ -188,6 +188,12 @@ func (d *duplexHTTPCall) CloseRead() error {
 		return nil
 	}
 	if err := discard(d.response.Body); err != nil {
+		// As in Read: if the call has already failed (its context ended and
+		// SetError closed the request body under the transport), that first
+		// error is the one to report.
+		if stored := d.getError(); stored != nil {
+			return stored
+		}
 		return wrapIfRSTError(err)
 	}
 	return wrapIfRSTError(d.response.Body.Close())
